@@ -15,17 +15,17 @@ Definition ex_raw : raw :=
         [[0; 1; 2; 3]; [1; 2; 3; 4]] [] [] [] [].
 
 Example ex_prepare : exists r', prepare (true, true) ex_raw = Ok r'
-  /\ edges r' = [(0, 1); (2, 3); (0, 1); (1, 2); (1, 3); (0, 2); (0, 3); (2, 4); (3, 4); (1, 4)]
+  /\ edges r' = [(0, 1); (2, 3); (1, 2); (1, 3); (0, 2); (0, 3); (2, 4); (3, 4); (1, 4)]
   /\ faces r' = [[3; 2; 1]; [0; 2; 3]; [3; 1; 0]; [0; 1; 2]; [2; 4; 3]; [1; 3; 4]; [4; 2; 1]]
   /\ cf_elem r' = [0; 1; 2; 3; 4; 5; 6; 0] /\ cf_adj r' = [0; 0; 0; 0; 1; 1; 1; 1]
   /\ map (fun na => (fst na, map (attr_get (snd na)) (zrange 10))) (eattrs r') =
-     [(1, [10; 40; 50; 0; 0; 0; 0; 0; 0; 0]); (2, [7; 5; 7; 7; 7; 7; 7; 7; 7; 7]); (0, [1; 1; 1; 0; 0; 0; 0; 0; 0; 0])].
+     [(1, [10; 40; 0; 0; 0; 0; 0; 0; 0; 0]); (2, [7; 5; 7; 7; 7; 7; 7; 7; 7; 7]); (0, [1; 1; 0; 0; 0; 0; 0; 0; 0; 0])].
 Proof. eexists. split; [vm_compute; reflexivity|]. vm_compute. repeat split; reflexivity. Qed.
 
 Example ex_hyps : fc_elem ex_raw = [] /\ cc_elem ex_raw = [] /\ cc_adj ex_raw = [] /\ cf_elem ex_raw = [] /\ cf_adj ex_raw = []
   /\ Forall cell_ok (cells ex_raw) /\ attr_lookup HARD (eattrs ex_raw) = None
   /\ added_edges (true, true) ex_raw <> [] /\ added_faces (true, true) ex_raw <> []
-  /\ kept_idx (zlen (vertices ex_raw)) (edges ex_raw) = [0; 3; 4].
+  /\ kept_idx (zlen (vertices ex_raw)) (edges ex_raw) = [0; 3].
 Proof.
   repeat split; try reflexivity.
   - repeat constructor; cbn; auto.
@@ -98,10 +98,6 @@ Proof.
   split; [right; split; reflexivity|]. split; [right; split; reflexivity|].
   eexists. split; [vm_compute; reflexivity|]. split; reflexivity.
 Qed.
-
-(* the guard of C02_edges_nodup_if_declared_distinct holds for ex_raw's ... no: ex_raw declares (1,0) and (0,1); a distinct one: *)
-Example ex_declared_distinct : NoDup (filter (evalid 4) (map kedge [(1, 0); (3, 3); (2, 3); (9, 1)])).
-Proof. vm_compute. repeat constructor; cbn; intuition discriminate. Qed.
 
 (* a construction that raises: completion off and the cell's faces not supplied *)
 Example ex_failed_prepare :
